@@ -31,7 +31,7 @@ def runPflagParseOp (inp out : Json) : Json :=
   let fs := flagsS.map toPFlag
   let args := (jarr inp "args").toList.map (fun x => (jstr x).toList)
   -- the general specification (fork features); without them the POSIX specification, which the theorems use, must agree
-  let forky := flagsS.any FlagS.fork
+  let forky := flagsS.any FlagS.fork || flagsS.any FlagS.nonPosix
   let modelP := Pflag.parse fs (jbool inp "interspersed") args
   let wl := jbool inp "whitelist"
   let model := PflagG.parseG (flagsS.map toPFlagG) (jbool inp "interspersed") args wl
